@@ -1001,6 +1001,8 @@ func c04Signature(c *C4Case, r *C4Result) string {
 		site = "parser"
 		if r.TokHang {
 			site = "tokenizer"
+		} else if c.Src == "fold-cost" {
+			site = "constant-folding"
 		}
 	}
 	if site == "" {
